@@ -80,6 +80,21 @@ fn diag_class(d: &str, emitted: &str) -> String {
         }
         out.push(c);
     }
+    if out.trim().is_empty() {
+        // the message starts with a quoted name ('x' was not declared in this scope): the class is the text after it
+        let mut rest = String::new();
+        let mut quoted = false;
+        for c in msg.chars() {
+            if c == '\'' || c == '`' {
+                quoted = !quoted;
+                continue;
+            }
+            if !quoted {
+                rest.push(c);
+            }
+        }
+        return rest.trim().chars().take(60).collect();
+    }
     out.trim().chars().take(60).collect()
 }
 
